@@ -9,7 +9,7 @@ FUNCTIONS = ["Traph.__add_page", "Traph.__create_webentity", "Traph.__add_prefix
              "LRUTrieWalkHistory.rules_to_apply", "helpers.lru_variations", "Traph.retrieve_prefix"]
 REQUIRED = ["created:iff", "created:ids", "created:prefix-set", "potential:value", "potential:no-side-effect", "resolve:prefix",
             "prefix_iter:count", "reach:op:page", "reach:op:rule", "reach:created", "reach:not-created", "reach:anchored-rule-wins",
-            "reach:default-rule", "reach:www-variation"]
+            "reach:default-rule", "reach:www-variation", "reach:hand-made-webentity", "reach:anchor-is-page"]
 OUTSIDE = ["rule patterns outside Hyphe's family (domain, subdomain, path1, path2)",
            "host payloads containing digits, 'l', 'L' or '[' (the localhost / IPv4 / IPv6 arms of the patterns are unreachable by assumption, checked by the symbolic regex matcher on every path)",
            "stem payloads longer than 2 bytes (a payload could then contain a second 's:x' scheme start)",
@@ -27,20 +27,22 @@ POOLS = {
 def levels(tier):
     if tier == "quick":
         return [
-            {"name": "pages-n1", "pools": ["a", "b", "c"], "n": 1, "alphabet": ["page"], "defaults": ["domain", "path1"],
-             "anchored": [None, (1, 3, "path1")]},
+            {"name": "pages-n1", "pools": ["a", "b"], "n": 1, "alphabet": ["page"], "defaults": ["domain", "path1"],
+             "anchored": [None, (1, 3, "path1"), (1, 4, "path1"), (0, 3, "subdomain")]},
             {"name": "pages-n2", "pools": ["a"], "n": 2, "alphabet": ["page"], "defaults": ["domain"],
-             "anchored": [None, (1, 3, "path1")]},
+             "anchored": [None, (1, 4, "path1")]},
+            {"name": "handmade", "pools": ["a"], "n": 1, "prelude": [["we", [[0, 3]]]], "alphabet": ["page", "we"],
+             "defaults": ["subdomain", "path1"], "anchored": [None, (2, 5, "path1")]},
             {"name": "install", "pools": ["a"], "n": 2, "alphabet": ["page"], "defaults": ["domain"],
-             "anchored": [None], "late_rule": [(1, 3, "path1"), (2, 1, "subdomain")]},
+             "anchored": [None], "late_rule": [(1, 4, "path1"), (2, 1, "subdomain")]},
         ]
     return [
-        {"name": "pages-n2", "pools": ["a", "b", "c"], "n": 2, "alphabet": ["page", "links"], "defaults": ["domain", "subdomain", "path1", "path2"],
-         "anchored": [None, (1, 3, "path1"), (2, 3, "path2"), (2, 1, "subdomain"), (0, 3, "domain")], "links_batch": 1},
-        {"name": "pages-n3", "pools": ["a", "b"], "n": 3, "alphabet": ["page"], "defaults": ["domain", "subdomain", "path1"],
-         "anchored": [None, (1, 3, "path1"), (2, 3, "path2")]},
+        {"name": "pages-n2", "pools": ["a", "b", "c"], "n": 2, "alphabet": ["page", "links", "we"], "defaults": ["domain", "subdomain", "path1", "path2"],
+         "anchored": [None, (1, 3, "path1"), (1, 4, "path1"), (2, 3, "path2"), (2, 1, "subdomain"), (0, 3, "domain")], "links_batch": 1},
+        {"name": "pages-n3", "pools": ["a", "b"], "n": 3, "alphabet": ["page", "we"], "defaults": ["domain", "subdomain", "path1"],
+         "anchored": [None, (1, 3, "path1"), (1, 4, "path1"), (2, 3, "path2")]},
         {"name": "install", "pools": ["a", "b", "c"], "n": 3, "alphabet": ["page"], "defaults": ["domain", "subdomain"],
-         "anchored": [None, (2, 1, "path1")], "late_rule": [(1, 3, "path1"), (2, 4, "path2"), (2, 1, "subdomain"), (0, 2, "path1")]},
+         "anchored": [None, (2, 1, "path1")], "late_rule": [(1, 3, "path1"), (1, 4, "path1"), (2, 4, "path2"), (2, 1, "subdomain"), (0, 2, "path1")]},
         {"name": "L2", "pools": ["a"], "L": 2, "n": 2, "alphabet": ["page"], "defaults": ["domain", "path1"], "anchored": [None, (1, 3, "path1")]},
     ]
 
@@ -60,6 +62,8 @@ def expected_potential(E, ref, pl):
         return e
     if K is not None:
         E.reach("anchored-rule-wins")
+        if len(K.stems) == len(pl.stems) and ref.rules.has(pl.lru):
+            E.reach("anchor-is-page")
         return K
     E.reach("default-rule")
     return rule_prefix(pl, ref.default_rule)
@@ -109,6 +113,9 @@ def harness(E):
         ref.rules.set(a.lru, rn)
     t = E.Traph(folder=None, default_webentity_creation_rule=RULES[default], webentity_creation_rules=rules)
     h = History(E, t, ref, pool, P["alphabet"], P)
+    if P.get("prelude"):
+        h.prelude(P["prelude"])
+        E.reach("hand-made-webentity")
     for i in range(P["n"]):
         # potential prefix of every pool LRU (inserted or not), without side effects
         for q in pool:
@@ -122,6 +129,9 @@ def harness(E):
             else:
                 E.check(bool(got) and same(E.wrap(got), want.lru), "potential:value", "potential prefix is not max(E, K)")
         kind, info = h.step(i)
+        if kind == "we":
+            E.reach("hand-made-webentity")
+            continue
         check_created(E, info)
         for pl in info.get("pages", []):
             w, p = ref.resolve(pl)
